@@ -478,6 +478,12 @@ class CompoundInterval(Location):
 
         self.start = self._starts[0]
         self.end = max(self._ends)
+        if self.start < 0:
+            raise InvalidPositionException(f"Positions must satisfy 0 <= start <= end. Start: {self.start}")
+        if parent_obj and parent_obj.sequence is not None and self.end > len(parent_obj.sequence):
+            raise InvalidPositionException(
+                f"End position ({self.end}) must be <= parent length ({len(parent_obj.sequence)})"
+            )
 
     @staticmethod
     def _sort_starts_ends(
